@@ -14,6 +14,87 @@ RETIRE_BODY = ("        self.pending_requests.discard(req)\n        self.overdue
                "        if req in self.overdue_timers:\n            self.overdue_timers[req].cancel()\n"
                "            del self.overdue_timers[req]\n")
 
+# C01-I shape: ShareFinder.loop tidied with two helpers
+LOOP_HEAD = "    # internal methods\n    def loop(self):\n"
+
+
+def _loop_helpers(may_send_more="len(non_overdue) < self.max_outstanding_requests"):
+    return ("    # internal methods\n"
+            "    def _next_server(self):\n"
+            "        if self._servers is None:\n            return None\n"
+            "        server = next(self._servers, None)\n"
+            "        if server is None:\n            self._servers = None\n"
+            "        return server\n\n"
+            "    def _may_send_more(self):\n"
+            "        non_overdue = self.pending_requests - self.overdue_requests\n"
+            "        return %s\n\n"
+            "    def loop(self):\n" % may_send_more)
+
+
+LOOP_GATES = ("        if not self.running:\n            return\n        if not self._hungry:\n            return\n")
+LOOP_LIMIT = ("        non_overdue = self.pending_requests - self.overdue_requests\n"
+              "        if len(non_overdue) >= self.max_outstanding_requests:\n"
+              "            # cannot send more requests, must wait for some to retire\n"
+              "            return\n\n")
+LOOP_TAKE = ("        server = None\n"
+             "        try:\n"
+             "            if self._servers:\n"
+             "                server = next(self._servers)\n"
+             "        except StopIteration:\n"
+             "            self._servers = None\n\n"
+             "        if server:\n")
+LOOP_FAITHFUL = ("        if not self._may_send_more():\n            return\n\n"
+                 "        server = self._next_server()\n        if server is not None:\n")
+
+# C03-I shape: _block_request_activity as an if/elif dispatch with the terminal bookkeeping in a helper
+BRA_HEAD = "    def _block_request_activity(self, share, shnum, state, block=None, f=None):\n"
+BRA_BODY = ("        # COMPLETE, CORRUPT, DEAD, BADSEGNUM are terminal. Remove the share\n"
+            "        # from all our tracking lists.\n"
+            "        if state in (COMPLETE, CORRUPT, DEAD, BADSEGNUM):\n"
+            "            self._share_observers.pop(share, None)\n"
+            "            server = share._server # XXX\n"
+            "            self._shares_from_server.discard(server, share)\n"
+            "            if self._active_share_map.get(shnum) is share:\n"
+            "                del self._active_share_map[shnum]\n"
+            "            self._overdue_share_map.discard(shnum, share)\n\n"
+            "        if state is COMPLETE:\n"
+            "            # 'block' is fully validated and complete\n"
+            "            self._blocks[shnum] = block\n\n"
+            "        if state is OVERDUE:\n"
+            "            # no longer active, but still might complete\n"
+            "            del self._active_share_map[shnum]\n"
+            "            self._overdue_share_map.add(shnum, share)\n"
+            "            # OVERDUE is not terminal: it will eventually transition to\n"
+            "            # COMPLETE, CORRUPT, or DEAD.\n\n"
+            "        if state is DEAD:\n"
+            "            self._last_failure = f\n"
+            "        if state is BADSEGNUM:\n"
+            "            # our main loop will ask the DownloadNode each time for the\n"
+            "            # number of segments, so we'll deal with this in the top of\n"
+            "            # _do_loop\n"
+            "            pass\n")
+BRA_DISPATCH = ("        if state is OVERDUE:\n"
+                "            del self._active_share_map[shnum]\n"
+                "            self._overdue_share_map.add(shnum, share)\n"
+                "        elif state in (COMPLETE, CORRUPT, DEAD, BADSEGNUM):\n"
+                "            self._forget_share(%s)\n"
+                "            if state is COMPLETE:\n"
+                "                self._blocks[shnum] = block\n"
+                "            elif state is DEAD:\n"
+                "                self._last_failure = f\n")
+
+
+def _forget_share(params="share, shnum", active=None, overdue="        self._overdue_share_map.discard(shnum, share)\n"):
+    if active is None:
+        active = ("        if self._active_share_map.get(shnum) is share:\n"
+                  "            del self._active_share_map[shnum]\n")
+    return ("    def _forget_share(self, %s):\n"
+            "        self._share_observers.pop(share, None)\n"
+            "        server = share._server # XXX\n"
+            "        self._shares_from_server.discard(server, share)\n" % params
+            + active + overdue + "\n" + BRA_HEAD)
+
+
 MUTANTS = [
     # ---- C46.1 active-segment typestate
     M("fetch-failed-no-reset", NODE,
@@ -184,6 +265,58 @@ MUTANTS = [
     M("benign-finder-server-is-not-none", FINDER,
       "        if server:\n            self.send_request(server)\n",
       "        if server is not None:\n            self.send_request(server)\n", None),
+    # C46.3 on the loop tidied with helpers (_next_server() returns an Optional, _may_send_more() holds the limit test)
+    M("benign-finder-loop-tidied-with-helpers-faithful", FINDER, LOOP_HEAD, _loop_helpers(), None,
+      edits=[(FINDER, LOOP_GATES, "        if not (self.running and self._hungry):\n            return\n"),
+             (FINDER, LOOP_LIMIT + LOOP_TAKE, LOOP_FAITHFUL)]),
+    M("benign-finder-loop-helpers-server-taken-before-the-limit-test", FINDER, LOOP_HEAD, _loop_helpers(), None,
+      edits=[(FINDER, LOOP_GATES, "        if not (self.running and self._hungry):\n            return\n"),
+             (FINDER, LOOP_LIMIT + LOOP_TAKE,
+              "        server = self._next_server()\n        if server is not None and self._may_send_more():\n")]),
+    M("benign-finder-loop-helpers-limit-flag-in-a-local", FINDER, LOOP_HEAD, _loop_helpers(), None,
+      edits=[(FINDER, LOOP_LIMIT + LOOP_TAKE,
+              "        room = self._may_send_more()\n        if not room:\n            return\n\n"
+              "        server = self._next_server()\n        if not server:\n            server = None\n        else:\n")]),
+    M("finder-loop-helpers-optional-server-not-tested", FINDER, LOOP_HEAD, _loop_helpers(), "C46.3",
+      edits=[(FINDER, LOOP_LIMIT + LOOP_TAKE,
+              "        if not self._may_send_more():\n            return\n\n"
+              "        server = self._next_server()\n        if self._servers is not None:\n")]),
+    M("finder-loop-helpers-limit-helper-also-false-without-servers", FINDER, LOOP_HEAD,
+      _loop_helpers("len(non_overdue) < self.max_outstanding_requests and self._servers is not None"), "C46.3",
+      edits=[(FINDER, LOOP_LIMIT + LOOP_TAKE, LOOP_FAITHFUL)]),
+    M("finder-loop-helpers-limit-helper-inverted-use", FINDER, LOOP_HEAD, _loop_helpers(), "C46.3",
+      edits=[(FINDER, LOOP_LIMIT + LOOP_TAKE,
+              "        if self._may_send_more():\n            return\n\n"
+              "        server = self._next_server()\n        if server is not None:\n")]),
+    M("finder-next-with-default-not-tested", FINDER, LOOP_TAKE,
+      "        server = None\n        if self._servers is not None:\n            server = next(self._servers, None)\n"
+      "        if self._servers is not None:\n", "C46.3"),
+    # C46.6.2 on the handler refactored into a dispatch + _forget_share() helper (the bookkeeping is followed into the helper)
+    M("benign-bra-dispatch-with-forget-share-helper-faithful", FETCH, BRA_HEAD, _forget_share(), None,
+      edits=[(FETCH, BRA_BODY, BRA_DISPATCH % "share, shnum")]),
+    M("benign-bra-dispatch-helper-pops-whatever-is-active", FETCH, BRA_HEAD,
+      _forget_share(active="        self._active_share_map.pop(shnum, None)\n"), None,
+      edits=[(FETCH, BRA_BODY, BRA_DISPATCH % "share, shnum")]),
+    M("benign-bra-dispatch-helper-with-other-parameter-names", FETCH, BRA_HEAD,
+      _forget_share(params="num, share",
+                    active="        if self._active_share_map.get(num) is share:\n            del self._active_share_map[num]\n",
+                    overdue="        self._overdue_share_map.discard(num, share)\n"), None,
+      edits=[(FETCH, BRA_BODY, BRA_DISPATCH % "shnum, share")]),
+    M("bra-dispatch-helper-forgets-the-overdue-map", FETCH, BRA_HEAD, _forget_share(overdue=""), "C46.6",
+      edits=[(FETCH, BRA_BODY, BRA_DISPATCH % "share, shnum")]),
+    M("bra-dispatch-helper-leaves-the-active-map-for-dead-shares", FETCH, BRA_HEAD,
+      _forget_share(params="share, shnum, state",
+                    active="        if state is not DEAD and self._active_share_map.get(shnum) is share:\n"
+                           "            del self._active_share_map[shnum]\n"), "C46.6",
+      edits=[(FETCH, BRA_BODY, BRA_DISPATCH % "share, shnum, state")]),
+    M("bra-dispatch-helper-called-with-swapped-arguments", FETCH, BRA_HEAD,
+      _forget_share(params="num, share",
+                    active="        if self._active_share_map.get(num) is share:\n            del self._active_share_map[num]\n",
+                    overdue="        self._overdue_share_map.discard(num, share)\n"), "C46.6",
+      edits=[(FETCH, BRA_BODY, BRA_DISPATCH % "share, shnum")]),
+    M("bra-dispatch-helper-removes-only-on-one-branch", FETCH, BRA_HEAD,
+      _forget_share(active="        if share._server is not None:\n            self._active_share_map.pop(shnum, None)\n"), "C46.6",
+      edits=[(FETCH, BRA_BODY, BRA_DISPATCH % "share, shnum")]),
     # C46.4: the read shrinks
     M("seg-size-never-shrinks", SEG,
       "        self._offset += len(desired_data)\n        self._size -= len(desired_data)\n",
